@@ -2,4 +2,5 @@ import TinyFlux.Audit.Tool
 import TinyFlux.Props.C08
 import TinyFlux.Props.C08State
 import TinyFlux.Props.C08Witness
+import TinyFlux.Props.C08Mirror
 #audit TinyFlux.Props.C08
